@@ -35,7 +35,7 @@ def replay(g, o, assigns, path):
 
 MANIFEST = {
     "category": "proof",
-    "text": 'Unbounded proof of the rule plumbing: Ritz values are stored wanted-first in the order of the selection rule (key table from the SortRule documentation, incl. the BothEnds interleave); the restart size k satisfies nev <= k <= ncv-1; the shifts are exactly the stored positions [k, ncv), ncv-k of them, each applied once; the returned set is the first nev positions of the last retrieve. Convergence of the iteration to that set is NOT decided.',
+    "text": 'Unbounded proof of the rule plumbing: Ritz values are stored wanted-first in the order of the selection rule (key table from the SortRule documentation, incl. the BothEnds interleave); the restart size k satisfies nev <= k <= ncv-1; the shifts are exactly the stored positions [k, ncv), ncv-k of them, each applied once; the returned set is the first nev positions of the last retrieve. Convergence of the iteration to that set is NOT decided. Third session: the selection rule is followed from compute() to argsort also when a refactoring keeps it in a data member (ghost parameter with the call-site precondition member == requested rule).',
     "note": 'floating-point values of Eigen expressions are havocked (lossy extraction, every abstracted statement listed in the evidence); callee contracts are generated stubs sharing clause texts with the enforcing harness; std::sort/Eigen/operator contracts assumed; Skolem instantiation meta-rule',
     "technique": "CBMC dfcc frame contracts + loop contracts + harness-asserted postconditions on mechanically extracted C (cadical)",
 }
